@@ -92,6 +92,8 @@ pub enum LazerExtra {
     /// speed change for whichever rate mod is contained in `bits`
     Rate(f64),
     TenKeys,
+    /// lazer-only Daycore (no legacy bit), with an optional speed change
+    Daycore(Option<f64>),
 }
 
 #[derive(Clone, Debug, PartialEq)]
@@ -178,6 +180,13 @@ impl ModsSpec {
                             ..Default::default()
                         }),
                     };
+                    mods.insert(m);
+                }
+                LazerExtra::Daycore(r) => {
+                    let mut m = GameMod::new("DC", mm);
+                    if let Some(r) = r {
+                        set_speed(&mut m, *r);
+                    }
                     mods.insert(m);
                 }
                 LazerExtra::Rate(r) => {
@@ -513,6 +522,7 @@ impl LazerExtra {
             Self::Random(s) => json!(["Random", ofj(*s)]),
             Self::DifficultyAdjust(a, c, h, o) => json!(["DA", ofj(*a), ofj(*c), ofj(*h), ofj(*o)]),
             Self::Rate(r) => json!(["Rate", fj(*r)]),
+            Self::Daycore(r) => json!(["Daycore", ofj(*r)]),
         }
     }
 
@@ -532,6 +542,7 @@ impl LazerExtra {
             "Random" => Self::Random(a.get(1).and_then(jf)),
             "DA" => Self::DifficultyAdjust(a.get(1).and_then(jf), a.get(2).and_then(jf), a.get(3).and_then(jf), a.get(4).and_then(jf)),
             "Rate" => Self::Rate(jf(a.get(1)?)?),
+            "Daycore" => Self::Daycore(a.get(1).and_then(jf)),
             _ => return None,
         })
     }
